@@ -127,7 +127,7 @@ class Fn:
                 return 'er', '(ER.neg %s)' % t
             if op == '-' and s == 'int':
                 return 'int', '-' + t
-            if op == '!' and s == 'bool':
+            if op == '!' and s in ('bool', 'type'):
                 return 'bool', '(!%s)' % t
             if op == '*' and s == 'erptr':
                 return 'er', t
@@ -150,7 +150,7 @@ class Fn:
                     return 'bool', '(' + c[op] % (tb, ta) + ')'
                 if op in c:
                     return 'bool', '(' + c[op] % (ta, tb) + ')'
-            if sa == sb == 'bool' and op in ('&&', '||'):
+            if sa in ('bool', 'type') and sb in ('bool', 'type') and op in ('&&', '||'):
                 return 'bool', '(%s %s %s)' % (ta, op, tb)
             if sa == sb == 'type' and op in ('==', '!='):
                 # var::INTEGER == t  /  t != var::INTEGER  (types are Bool: INTEGER = true)
@@ -170,6 +170,8 @@ class Fn:
             return sa, '(if %s then %s else %s)' % (tc, ta, tb)
         if k == 'CXXOperatorCallExpr':
             ch = [strip(c) for c in inner(n)]
+            if ch[0].get('kind') == 'UnresolvedLookupExpr' and ch[0].get('name') in ('operator==', 'operator!=') and len(ch) == 3:
+                return self.expr({'kind': 'BinaryOperator', 'opcode': ch[0]['name'][8:], 'inner': [ch[1], ch[2]]})
             if ch[0].get('kind') == 'DeclRefExpr' and ch[0]['referencedDecl']['name'] == 'operator[]':
                 s, t = self.expr(ch[1])
                 si, ti = self.expr(ch[2])
@@ -199,6 +201,10 @@ class Fn:
                 (sa, ta), (sb, tb) = self.expr(args[0]), self.expr(args[1])
                 if sa == sb == 'er':
                     return 'er', '(ER.%s %s %s)' % ('smax' if cname == 'max' else 'smin', ta, tb)
+            if cname == 'Inf' and not args:
+                return 'er', 'ER.pinf'
+            if cname == 'MinusInf' and not args:
+                return 'er', 'ER.ninf'
             if cname == 'max' and not args:
                 return 'er', '(ER.fin dblMax)'
             if cname == 'min' and not args:
@@ -268,6 +274,14 @@ class Fn:
                             return 'erpair', '(productBounds e %s %s)' % (t1, t2)
                     if mem == 'GetModel' and not margs:
                         return 'model', 'e'
+                    if mem in ('is_fixed', 'is_integer_var', 'is_binary_var') and len(margs) == 1:
+                        s, t = self.expr(margs[0])
+                        if s == 'var':
+                            return 'bool' if mem != 'is_integer_var' else 'type', '(%s e %s)' % ({'is_fixed': 'isFixed', 'is_integer_var': 'isIntegerVar', 'is_binary_var': 'isBinaryVar'}[mem], t)
+                    if mem == 'fixed_value' and len(margs) == 1:
+                        s, t = self.expr(margs[0])
+                        if s == 'var':
+                            return 'er', '(fixedValue e %s)' % t
                 # accessors on a constraint / result records
                 sr, tr_ = (None, None)
                 try:
@@ -522,12 +536,14 @@ def generate(repo, workdir):
     if len(bcls) != 1:
         raise TranslateError('BoundComputations not found')
     out.append(gen_bounds(bcls[0]))
+    helpers = gen_model_helpers(repo, workdir, inc)
     tl = ', '.join('"%s"' % t.replace(' &', '') for t in types)
     head = ('import MpVerif.C06.GenSupport\n/-! GENERATED by translators/gen_c06.py from include/mp/flat/{constr_prepro,expr_bounds,preprocess}.h — do not edit. -/\n'
             'namespace MpVerif.Gen.C06\nopen MpVerif.C06 MpVerif.C06.ER\n\n'
             '/-- first-parameter types of all `PreprocessConstraint` overloads in the source -/\n'
             'def overloadTypes : List String := [%s]\n\n' % tl)
-    return head + '\n'.join(out) + '\nend MpVerif.Gen.C06\n'
+    return (head + '\n'.join(out) + '\nend MpVerif.Gen.C06\n\n/-! generated from include/mp/flat/converter_model.h -/\nnamespace MpVerif.Gen.C06.CM\nopen MpVerif.C06 (Env ER VarB)\nopen MpVerif.C06.ER\n\n'
+            + helpers + '\nend MpVerif.Gen.C06.CM\n')
 
 
 def gen_fix_equality(m):
@@ -885,10 +901,104 @@ def gen_with_const(m):
             'def withConst (result : Pre) (c0 : Rat) : Pre :=\n%s\n' % txt)
 
 
+def gen_model_helpers(repo, workdir, inc):
+    """converter_model.h: is_fixed, fixed_value, is_integer_var, is_binary_var, common_type, lb_array, lb_max_array, ub_array, ub_min_array"""
+    tu = os.path.join(workdir, 'c06_cm_tu.cc')
+    open(tu, 'w').write('#include "mp/flat/converter_model.h"\n')
+    docs = clang_dump(tu, 'FlatModel', inc)
+    cls = [d for d in docs if d.get('kind') == 'ClassTemplateDecl' and d.get('name') == 'FlatModel']
+    if len(cls) != 1:
+        raise TranslateError('class template FlatModel not found exactly once')
+    ms = {}
+    for m in find(cls[0], lambda n: n.get('kind') == 'CXXMethodDecl' and any(c.get('kind') == 'CompoundStmt' for c in inner(n)), []):
+        ms.setdefault(m['name'], []).append(m)
+    out = []
+
+    def single(nm):
+        if nm not in ms or len(ms[nm]) != 1:
+            raise TranslateError('converter_model.h: %s not found exactly once' % nm)
+        return ms[nm][0]
+
+    def ret_expr(nm, lean_nm, sort, ty):
+        m = single(nm)
+        ps = params_of(m)
+        f = Fn(lean_nm, {ps[0]['name']: ('var', 'v')})
+        st = inner(body_of(m))
+        if len(st) != 1 or st[0].get('kind') != 'ReturnStmt':
+            raise TranslateError('%s: body is not a single return' % nm)
+        s_, t = f.expr(inner(st[0])[0])
+        if s_ != sort:
+            raise TranslateError('%s: returns sort %s' % (nm, s_))
+        out.append('/-- generated from `FlatModel::%s` (converter_model.h) -/\ndef %s (e : Env) (v : Nat) : %s := %s\n' % (nm, lean_nm, ty, t))
+    ret_expr('is_fixed', 'isFixed', 'bool', 'Bool')
+    ret_expr('fixed_value', 'fixedValue', 'er', 'ER')
+    ret_expr('is_integer_var', 'isIntegerVar', 'bool', 'Bool')
+    ret_expr('is_binary_var', 'isBinaryVar', 'bool', 'Bool')
+
+    def range_loop(m):
+        """(init statements, loop var name, range name, body statements, return expr node)"""
+        st = inner(body_of(m))
+        if len(st) != 3 or st[0].get('kind') != 'DeclStmt' or st[1].get('kind') != 'CXXForRangeStmt' or st[2].get('kind') != 'ReturnStmt':
+            raise TranslateError('%s: not `T r = init; for (auto v: va) ...; return r;`' % m['name'])
+        loop = st[1]
+        decls = [c for c in loop.get('inner', []) if isinstance(c, dict) and c.get('kind') == 'DeclStmt']
+        rng = strip(inner(inner(decls[0])[0])[0])
+        lv = inner(decls[-1])[0]['name']
+        body = [c for c in loop.get('inner', []) if isinstance(c, dict) and c.get('kind') == 'CompoundStmt']
+        if rng.get('kind') != 'DeclRefExpr' or len(body) != 1:
+            raise TranslateError('%s: range-for shape' % m['name'])
+        return st[0], lv, rng['referencedDecl']['name'], inner(body[0]), strip(inner(st[2])[0])
+
+    for nm, lean_nm in (('lb_array', 'lbArray'), ('lb_max_array', 'lbMaxArray'), ('ub_array', 'ubArray'), ('ub_min_array', 'ubMinArray')):
+        m = single(nm)
+        init, lv, rng, body, ret = range_loop(m)
+        pname = params_of(m)[0]['name']
+        if rng != pname:
+            raise TranslateError('%s: loop ranges over %s' % (nm, rng))
+        f = Fn(lean_nm, {pname: ('vars', 'va')})
+        vd = inner(init)[0]
+        s0, t0 = f.expr(inner(vd)[0])
+        acc = vd['name']
+        f.env[acc] = ('er', 'result')
+        f.env[lv] = ('var', 'v')
+        if len(body) != 1 or body[0].get('kind') != 'BinaryOperator' or body[0].get('opcode') != '=':
+            raise TranslateError('%s: loop body is not a single assignment' % nm)
+        lhs, rhs = [strip(c) for c in inner(body[0])]
+        if lhs.get('kind') != 'DeclRefExpr' or lhs['referencedDecl']['name'] != acc or ret.get('kind') != 'DeclRefExpr' or ret['referencedDecl']['name'] != acc:
+            raise TranslateError('%s: accumulator mismatch' % nm)
+        s1, t1 = f.expr(rhs)
+        if s0 != 'er' or s1 != 'er':
+            raise TranslateError('%s: sorts' % nm)
+        out.append('/-- generated from `FlatModel::%s`: `double result = init; for (auto v: va) result = ...; return result;` -/\n'
+                   'def %s (e : Env) (va : List Nat) : ER := va.foldl (fun result v => %s) %s\n' % (nm, lean_nm, t1, t0))
+    # common_type: type = INTEGER; for (v: va) if (cond) { type = CONTINUOUS; break; } return type;
+    m = single('common_type')
+    init, lv, rng, body, ret = range_loop(m)
+    f = Fn('commonType', {params_of(m)[0]['name']: ('vars', 'va'), lv: ('var', 'v')})
+    vd = inner(init)[0]
+    s0, t0 = f.expr(inner(vd)[0])
+    okb = (len(body) == 1 and body[0].get('kind') == 'IfStmt' and len(inner(body[0])) == 2)
+    if okb:
+        cond, then = inner(body[0])
+        ts_ = inner(then) if then.get('kind') == 'CompoundStmt' else [then]
+        okb = (len(ts_) == 2 and ts_[1].get('kind') == 'BreakStmt' and ts_[0].get('kind') == 'BinaryOperator' and ts_[0].get('opcode') == '=')
+    if not okb or s0 != 'type':
+        raise TranslateError('common_type: not `type = T0; for (v: va) if (cond) { type = T1; break; } return type;`')
+    f.env[vd['name']] = ('type', 'type0')
+    sc, tc = f.expr(cond)
+    s1, t1 = f.expr(inner(ts_[0])[1])
+    if sc != 'bool' or s1 != 'type':
+        raise TranslateError('common_type: sorts')
+    out.append('/-- generated from `FlatModel::common_type`: the first element satisfying the condition switches the type and ends the loop -/\n'
+               'def commonType (e : Env) (va : List Nat) : Bool := if va.any (fun v => %s) then %s else %s\n' % (tc, t1, t0))
+    return '\n'.join(out)
+
+
 def main():
     repo, outp, work = sys.argv[1:4]
-    srcs = [os.path.join(repo, 'include/mp/flat', f) for f in ('constr_prepro.h', 'expr_bounds.h', 'preprocess.h')] + [os.path.abspath(__file__)]
+    srcs = [os.path.join(repo, 'include/mp/flat', f) for f in ('constr_prepro.h', 'expr_bounds.h', 'preprocess.h', 'converter_model.h')] + [os.path.abspath(__file__)]
     h = hashlib.sha256()
+    h.update(os.path.abspath(outp).encode())
     for s in srcs:
         h.update(open(s, 'rb').read())
     stamp = os.path.join(work, 'c06_gen.stamp')
